@@ -4,6 +4,7 @@ import Chain33Model.Proofs.C18Comp
 import Chain33Model.Proofs.C18Branch
 import Chain33Model.Proofs.C18Bind
 import Chain33Model.Proofs.C18Mut
+import Chain33Model.Proofs.C18Multi
 /-!
 C18 — Transaction root is consistent, provable and binding.  Property theorems only.
 `β` is any hash domain, `nil` the value Go returns for "no hash", `H2` any two-to-one function
@@ -127,21 +128,118 @@ example : GetMerkleBranch (0 : Nat) (fun a b => 2 * a + 3 * b + 1) [5, 6, 7, 8, 
     GetMerkleRootFromBranch (fun a b => 2 * a + 3 * b + 1) [9, 46, 176] 9 4
       = getMerkleRoot 0 (fun a b => 2 * a + 3 * b + 1) [5, 6, 7, 8, 9] := by decide
 
+/-- The child chains returned by `calcMultiLayer` tile the transaction list: consecutive,
+non-empty ranges from 0 to `txs.length` — so every transaction lies in exactly one child chain. -/
+theorem multilayer_tiles [DecidableEq β] (nil zero : β) (H2 : β → β → β) (ncpu : Nat)
+    (txs : List (Bytes × β)) (r : β) (cs : List (Child β))
+    (h : calcMultiLayer nil zero H2 ncpu txs = .ok (r, cs)) (hne : txs ≠ []) :
+    Tiles (cs.map (fun c => (c.start, c.count))) 0 txs.length := by
+  unfold calcMultiLayer at h
+  have he : txs.isEmpty = false := by cases txs <;> simp_all
+  simp only [he, Bool.false_eq_true, if_false] at h
+  have hlen : txs.length = (txs.map (·.2)).length := by simp
+  obtain ⟨e, rest, hcons⟩ : ∃ e rest, txs = e :: rest := by
+    cases txs with
+    | nil => exact absurd rfl hne
+    | cons e rest => exact ⟨e, rest, rfl⟩
+  obtain ⟨t0, tl, h0⟩ := childStarts_head e.1 (rest.map (·.1))
+  have hok : StartsOK (childStarts (txs.map (·.1)) 0 []) 0 (txs.map (·.2)).length := by
+    have := childStarts_ok (txs.map (·.1)) 0 []
+    simpa using this
+  have hexecs : txs.map (·.1) = e.1 :: rest.map (·.1) := by rw [hcons]; rfl
+  rw [hexecs, h0] at h
+  rw [hexecs, h0] at hok
+  split at h
+  · cases h
+  · next t s hst =>
+    cases hst
+    split at h
+    · cases h
+    · cases h
+      have : 0 < txs.length := List.length_pos_iff.mpr hne
+      simp [Tiles]; omega
+  · split at h
+    · cases h
+    · next cs' hcs' =>
+      split at h
+      · cases h
+      · cases h
+        rw [hlen] at hcs' ⊢
+        exact childRoots_tiles nil H2 zero ncpu _ _ 0 cs hok hcs' t0 0 tl rfl
+
+/-- `calcMultiLayer` cannot panic (a panic is a node crash) when no transaction hash is nil and
+`GetHashFromTwoHash` returns nil only for a nil argument — true of every 32-byte hash. -/
+theorem multilayer_total [DecidableEq β] (nil zero : β) (H2 : β → β → β) (ncpu : Nat)
+    (txs : List (Bytes × β)) (hH : NilFree nil H2) (hleaf : ∀ t ∈ txs, t.2 ≠ nil) :
+    ∃ r cs, calcMultiLayer nil zero H2 ncpu txs = .ok (r, cs) := by
+  unfold calcMultiLayer
+  by_cases he : txs.isEmpty = true
+  · simp [he]
+  · simp only [he, Bool.false_eq_true, if_false]
+    have hne : txs ≠ [] := by intro h; rw [h] at he; simp at he
+    have hnil : ∀ a ∈ txs.map (·.2), a ≠ nil := by
+      intro a ha
+      obtain ⟨t, ht, rfl⟩ := List.mem_map.mp ha
+      exact hleaf t ht
+    have hhs : txs.map (·.2) ≠ [] := by simpa using hne
+    obtain ⟨e, rest, hcons⟩ : ∃ e rest, txs = e :: rest := by
+      cases txs with
+      | nil => exact absurd rfl hne
+      | cons e rest => exact ⟨e, rest, rfl⟩
+    obtain ⟨t0, tl, h0⟩ := childStarts_head e.1 (rest.map (·.1))
+    have hok' : StartsOK (childStarts (txs.map (·.1)) 0 []) 0 (txs.map (·.2)).length := by
+      have := childStarts_ok (txs.map (·.1)) 0 []
+      simpa using this
+    have hexecs : txs.map (·.1) = e.1 :: rest.map (·.1) := by rw [hcons]; rfl
+    have hlen : txs.length = (txs.map (·.2)).length := by simp
+    rw [hexecs, h0] at hok' ⊢
+    split
+    · next hc => cases hc
+    · next t s hst =>
+      rw [singleLayerRoot_total nil H2 hH zero ncpu _ hhs hnil]
+      exact ⟨_, _, rfl⟩
+    · next hs1 hs2 =>
+      obtain ⟨cs, hrun, hcne, hclen, _⟩ := childRoots_total nil H2 hH zero ncpu _ hnil ((t0, 0) :: tl) 0 hok'
+      rw [hlen, hrun]
+      simp only
+      have hcsne : cs.map (·.hash) ≠ [] := by
+        intro h
+        have := congrArg List.length h
+        simp [hclen] at this
+      have : GetMerkleRoot nil H2 ncpu (cs.map (·.hash)) ≠ nil := by
+        rw [GetMerkleRoot_eq]
+        apply root_ne_nil nil H2 hH _ hcsne
+        intro a ha
+        obtain ⟨c, hc, rfl⟩ := List.mem_map.mp ha
+        exact hcne c hc
+      rw [if_neg this]
+      exact ⟨_, _, rfl⟩
+
+/-- non-vacuity of `NilFree` (and of `multilayer_total`'s hypotheses): the toy hash never returns
+the nil value 0. -/
+example : NilFree (0 : Nat) (fun a b => 2 * a + 3 * b + 1) := fun a b _ _ => by
+  show 2 * a + 3 * b + 1 ≠ 0; omega
+
 /-- Multi-layer (child chain) roots, whatever the worker count: the top root is the sequential
 root of the child-chain roots; every child root's branch verifies against the top root; every
-child root is the sequential root of its transaction range, and the branch of every transaction
-of the range verifies against the child root (the two-level proof of `getMultiLayerProofs`). -/
+transaction index lies in a child chain; every child root is the sequential root of its
+transaction range, and the branch of every transaction of the range verifies against the child
+root (the two-level proof of `getMultiLayerProofs`). With `multilayer_total` the hypothesis `h`
+is discharged for non-nil hashes. -/
 theorem multilayer_ok [DecidableEq β] (nil zero : β) (H2 : β → β → β) (ncpu : Nat)
     (txs : List (Bytes × β)) (r : β) (cs : List (Child β))
     (h : calcMultiLayer nil zero H2 ncpu txs = .ok (r, cs))
     (hne : txs ≠ []) (hlen : txs.length < 2 ^ 32) :
     r = getMerkleRoot nil H2 (cs.map (·.hash)) ∧
-    (∀ (i : Nat) (hi : i < cs.length), cs.length < 2 ^ 32 →
+    (∀ (i : Nat) (hi : i < cs.length),
       ∃ b, GetMerkleBranch nil H2 (cs.map (·.hash)) i = .ok b ∧
         GetMerkleRootFromBranch H2 b cs[i].hash i = r) ∧
+    (∀ i, i < txs.length → ∃ c ∈ cs, c.start ≤ i ∧ i < c.start + c.count ∧
+      i - c.start < (((txs.map (·.2)).drop c.start).take c.count).length) ∧
     (∀ c ∈ cs, ∀ (j : Nat) (hj : j < (((txs.map (·.2)).drop c.start).take c.count).length),
       ∃ b, GetMerkleBranch nil H2 (((txs.map (·.2)).drop c.start).take c.count) j = .ok b ∧
         GetMerkleRootFromBranch H2 b (((txs.map (·.2)).drop c.start).take c.count)[j] j = c.hash) := by
+  have htiles := multilayer_tiles nil zero H2 ncpu txs r cs h hne
   have hroot_and_ok : r = getMerkleRoot nil H2 (cs.map (·.hash)) ∧ ∀ c ∈ cs, ChildOK nil H2 (txs.map (·.2)) c := by
     unfold calcMultiLayer at h
     have he : txs.isEmpty = false := by cases txs <;> simp_all
@@ -181,11 +279,21 @@ theorem multilayer_ok [DecidableEq β] (nil zero : β) (H2 : β → β → β) (
         · cases h
           exact ⟨GetMerkleRoot_eq nil H2 _ ncpu, childRoots_ok nil H2 zero ncpu _ _ _ _ hcs'⟩
   obtain ⟨hroot, hok⟩ := hroot_and_ok
-  refine ⟨hroot, ?_, ?_⟩
-  · intro i hi hcs
-    have := branch_verifies nil H2 (cs.map (·.hash)) i (by simpa using hi) (by simpa using hcs)
+  have hcslen : cs.length < 2 ^ 32 := by
+    have := tiles_length_le _ _ _ htiles
+    simp at this; omega
+  refine ⟨hroot, ?_, ?_, ?_⟩
+  · intro i hi
+    have := branch_verifies nil H2 (cs.map (·.hash)) i (by simpa using hi) (by simpa using hcslen)
     obtain ⟨b, hb, hv⟩ := this
     exact ⟨b, hb, by rw [hroot, ← hv]; simp⟩
+  · intro i hi
+    obtain ⟨sc, hm, h1, h2⟩ := tiles_cover _ 0 txs.length i htiles (Nat.zero_le _) hi
+    obtain ⟨c, hc, rfl⟩ := List.mem_map.mp hm
+    refine ⟨c, hc, h1, h2, ?_⟩
+    simp only [List.length_take, List.length_drop, List.length_map]
+    simp only at h1 h2
+    omega
   · intro c hc j hj
     have hne' : ((txs.map (·.2)).drop c.start).take c.count ≠ [] := by
       intro h0; rw [h0] at hj; simp at hj
@@ -207,7 +315,12 @@ example :
 
 /-! ### binding -/
 
-/-- `Computation` reports the list as mutated (the caller then treats the block as invalid). -/
+/-- `Computation` reports the list as mutated. NOTE: in /repo this return value is unused — every
+caller discards it (`GetMerkleBranch`: `_, _, branchs :=`, `GetMerkleRootAndBranch`:
+`roothash, _, branchs =`) and block validation computes the root with `GetMerkleRoot` /
+`CalcMerkleRoot`, which have no mutation check. Theorems about `Flagged` are therefore facts about
+`Computation` only; what actually rejects a duplicated-tail block is the duplicate-transaction
+check (`binding_dupcheck` below). -/
 def Flagged [DecidableEq β] (nil : β) (H2 : β → β → β) (xs : List β) : Prop :=
   ∃ r b, Computation nil H2 xs 1 0 = .ok (r, true, b)
 
@@ -254,6 +367,48 @@ theorem binding [DecidableEq β] (nil : β) (H2 : β → β → β) (xs ys : Lis
   · exact Or.inr (Or.inl (mutated_complete nil H2 xs hlx h1))
   · exact Or.inr (Or.inr (Or.inl (mutated_complete nil H2 ys hly h1)))
   · exact Or.inr (Or.inr (Or.inr h1))
+
+/-- Binding over lists without repeated leaves: two non-empty duplicate-free lists with the same
+root are identical, or `H2` has an explicit collision, or a leaf equals an inner value. (Every
+duplicated sibling pair forces a repeated leaf: `dup_of_sibDup`.) -/
+theorem binding_nodup (nil : β) (H2 : β → β → β) (xs ys : List β) (hx : xs ≠ []) (hy : ys ≠ [])
+    (hdx : xs.Nodup) (hdy : ys.Nodup)
+    (h : getMerkleRoot nil H2 xs = getMerkleRoot nil H2 ys) :
+    xs = ys ∨ Collision H2 ∨ LeafIsInner H2 xs ∨ LeafIsInner H2 ys := by
+  rcases binding_sem nil H2 xs ys hx hy h with h1 | h1 | h1 | h1 | h1
+  · exact Or.inl h1
+  · rcases dup_of_sibDup nil H2 xs h1 with h2 | h2
+    · exact absurd hdx h2
+    · exact Or.inr (Or.inl h2)
+  · rcases dup_of_sibDup nil H2 ys h1 with h2 | h2
+    · exact absurd hdy h2
+    · exact Or.inr (Or.inl h2)
+  · exact Or.inr (Or.inl h1)
+  · exact Or.inr (Or.inr h1)
+
+/-- Binding with the mechanism /repo really uses. `xs`, `ys` are the leaf lists of two blocks
+(transaction hashes; after ForkRootHash full hashes, and equal full hashes mean equal
+transactions hence equal transaction hashes). If the roots — computed with any worker counts —
+are equal and the lists differ, then one of the two blocks fails the duplicate-transaction check
+of `PreExecBlock` (`DelDupTx` shortens the list ⇒ `ErrTxDup` for a peer block), or there is an
+explicit hash collision, or a leaf equals an inner value. -/
+theorem binding_dupcheck [DecidableEq β] (nil : β) (H2 : β → β → β) (xs ys : List β) (n₁ n₂ : Nat)
+    (hx : xs ≠ []) (hy : ys ≠ []) (hneq : xs ≠ ys)
+    (h : GetMerkleRoot nil H2 n₁ xs = GetMerkleRoot nil H2 n₂ ys) :
+    dupRejected xs = true ∨ dupRejected ys = true ∨ Collision H2 ∨ LeafIsInner H2 xs ∨ LeafIsInner H2 ys := by
+  rw [parallel_eq_seq, parallel_eq_seq] at h
+  by_cases hdx : xs.Nodup
+  · by_cases hdy : ys.Nodup
+    · rcases binding_nodup nil H2 xs ys hx hy hdx hdy h with h1 | h1
+      · exact absurd h1 hneq
+      · exact Or.inr (Or.inr h1)
+    · exact Or.inr (Or.inl ((dupRejected_iff ys).mpr hdy))
+  · exact Or.inl ((dupRejected_iff xs).mpr hdx)
+
+/-- non-vacuity: the duplicated-tail list [5,6,7,7] has the root of [5,6,7] and is rejected by the
+duplicate check, [5,6,7] is not. -/
+example : dupRejected [5, 6, 7, 7] = true ∧ dupRejected [5, 6, 7] = false ∧ delDupTx [5, 7, 6, 7] = [5, 6, 7] := by
+  decide
 
 /-- non-vacuity: [5,6,7] and [5,6,7,7] are different lists with the same root, and the longer one
 is flagged; the "hash" here is a toy function on `Nat`. -/
